@@ -4,6 +4,7 @@ import (
 	"bytes"
 	"fmt"
 	"path/filepath"
+	"strings"
 
 	"github.com/glebziz/fs_db"
 	"github.com/glebziz/fs_db/pkg/verif"
@@ -69,7 +70,10 @@ func c07Orders(tier string, seed int64, idx int, scratch string) rt.CaseResult {
 					}
 					rt.Beat()
 					readsBetween := n%3 == 0
-					key := fmt.Sprintf("o%d-%d", idx, n)
+					// keys of 40-140 bytes made of two- and three-byte runes after an ASCII prefix of
+					// varying length: whatever byte offset a layer may cut a key at, some key has a
+					// rune straddling it
+					key := fmt.Sprintf("o%d-%d-", idx, n) + strings.Repeat([]string{"é", "日", "ключ"}[n%3], 10+n%30) + []string{"", "x", "xy"}[n/3%3]
 					plan := map[string]any{"seed": seed, "case": idx, "mode": modeName(mode), "order": order, "levels": levels, "key": keyState, "writes": writes, "reads_in_between": readsBetween}
 					init := seqrun.Content(key+"-init", 12)
 					switch keyState {
